@@ -81,8 +81,7 @@ Finish(s0) ==
                   ELSE IF fin.unspec THEN "unspec" ELSE "ok",
        words  |-> fin.words ]
 
-RECURSIVE Run(_, _)
-Run(st, s) == IF s = << >> THEN st ELSE Run(Step(st, Head(s)), Tail(s))
+Run(st, s) == FoldLeft(Step, st, s)          \* the machine run over a whole string
 Split(s)   == Finish(Run(St0, s))
 
 (* ---- the machine as a behaviour spec (checked by TLC in PosixWords_Gen) ---- *)
@@ -97,14 +96,10 @@ Done == i = Len(inp) + 1
 Result == Finish(st)
 
 (* ---- renderings ------------------------------------------------------------ *)
-RECURSIVE JoinSp(_)
-JoinSp(ws) == IF ws = << >> THEN << >> ELSE IF Len(ws) = 1 THEN ws[1]
-              ELSE ws[1] \o << SP >> \o JoinSp(Tail(ws))
+JoinSp(ws) == FlattenSeq([k \in 1..Len(ws) |-> IF k = 1 THEN ws[k] ELSE << SP >> \o ws[k]])
 
 (* reference: every word in single quotes, an embedded ' written as '\'' *)
-RECURSIVE EscSq(_)
-EscSq(w) == IF w = << >> THEN << >>
-            ELSE (IF Head(w) = SQ THEN << SQ, BS, SQ, SQ >> ELSE << Head(w) >>) \o EscSq(Tail(w))
+EscSq(w) == FlattenSeq([k \in 1..Len(w) |-> IF w[k] = SQ THEN << SQ, BS, SQ, SQ >> ELSE << w[k] >>])
 Quote(w) == << SQ >> \o EscSq(w) \o << SQ >>
 RenderQuoted(ws) == JoinSp([k \in 1..Len(ws) |-> Quote(ws[k])])
 
